@@ -734,3 +734,41 @@ func (x *gen) smemDev(w, off, mode int) {
 	}
 	x.mcount["motif|scalar-reread-of-kernel-written-data"]++
 }
+
+// ---------------------------------------------------------------- mixed work-groups
+
+// mixedGeo: a 3-D grid of 8x16x1 work-groups, one column, two full rows and a
+// third row only 8 work-items high per Z plane: in dispatch order the groups
+// have 2,2,1,2,2,1,... wavefronts (a partial extent in X does not reduce the
+// wavefront count, a partial extent in Y does). 30-42 groups.
+func mixedGeo(r *vlib.PRNG) Launch {
+	nz := 10 + r.Intn(5)
+	return Launch{Grid: [3]uint32{8, 16*2 + 8, uint32(nz)}, WG: [3]uint16{8, 16, 1}}
+}
+
+// spinWG: a scalar loop whose trip count depends on the work-group:
+// (fullRows - wgY) * n + (wgZ & 3) * m + 1 iterations: the low last-row groups
+// (one wavefront) are the shortest, the group dispatched right after them (row
+// 0 of the next plane) the longest, so that the groups sharing a compute unit
+// finish out of order and one-wavefront holes open between running groups.
+// The scalar state every kernel keeps (buffer pointers, long-lived registers,
+// the loop's own accumulators) is live across it and used afterwards for the
+// stores. Runs first in the body (the work-group id registers are intact).
+func (x *gen) spinWG(n, m int) {
+	k := x.k
+	top := k.label("spw")
+	full := k.l.numWG()[1] - 1
+	k.sop2(1 /*s_sub_u32*/, g.S(sCNT), g.Imm(full), g.S(k.rWGY))
+	k.sop2(opSMulI32, g.S(sCNT), g.S(sCNT), immOrLit(n))
+	k.sop2(12 /*s_and_b32*/, g.S(sCNT+1), g.S(k.rWGZ), g.Imm(3))
+	k.sop2(opSMulI32, g.S(sCNT+1), g.S(sCNT+1), g.Imm(m))
+	k.sop2(opSAddU32, g.S(sCNT), g.S(sCNT), g.S(sCNT+1))
+	k.sop2(opSAddU32, g.S(sCNT), g.S(sCNT), g.Imm(1))
+	k.p.Label(top)
+	k.sop2(opSAddU32, g.S(sT0), g.S(sT0), g.S(sCNT))
+	k.sop2(opSMulI32, g.S(sT0+1), g.S(sT0), g.Imm(3))
+	k.sop2(16, g.S(sT0+2), g.S(sT0+2), g.S(sT0+1))
+	k.sop2(2, g.S(sCNT), g.S(sCNT), g.Imm(-1))
+	k.add(g.MkSOPC(7, g.S(sCNT), g.Imm(0)))
+	k.add(g.Branch(g.OpSCbranchSCC1, top))
+}
